@@ -21,7 +21,11 @@
     X <t> <ops>                 history over a pool of 4 lists and 3 caller-held slices (aliasing check)
          ops: N:<j>:<init>  a:<j>:<v>  A:<j>:<k> (AddAllArray(slice k))  B:<j>:<k> (AddAll(list k))
               s:<j>:<i>:<v>  g:<j>:<i>  T:<j>:<k> (slice k = ToArray())  R:<k>:<list> (slice k = literal)
-              w:<k>:<i>:<v> (slice k[i] = v)  F:<dst>:<src>:<idx list>  Z:<j> (Sorting result overwritten)
+              w:<k>:<i>:<v> (slice k[i] = v)  F:<dst>:<src>:<idx list>
+              b:<j>:<v> / e:<j>:<i>:<v>  add / set through an alias method (AddLong on an IntList, …)
+              Z:<j>:<asc>  Sorting(asc): answer z<values along the returned permutation>  (-0 printed as 0)
+              Y:<j>:<asc>:<k>:<casc>  SortingAnyList(asc, list k, casc): answer y<value/child,…>
+              D:<j>:<k>  list j .Read( bytes of list k .Write() )   (decode into a receiver in any state)
          answer per op: <u|p|v..>#<list0>|<list1>|<list2>|<list3>|<slice0>|<slice1>|<slice2>
     C <t> <init> <ops>          cross-type (integer <-> decimal text) methods, t = i | l | s
          ops: aI:<int> aS:<str> sI:<i>:<int> sS:<i>:<str> gI:<i> gS:<i> t     answer: u | p | v<int> | v<str> | t<list>
@@ -280,10 +284,74 @@ def showTable (t : Table.T) : String :=
 
 def theSort : Sort.SortFn := Sort.goSort (fun less xs => xs.mergeSort less)
 
-/-! ### sorting -/
+/-! ### multi-object histories, with queries and decode-into-receiver -/
 
 def parseBool (s : String) : Option Bool :=
   if s == "1" then some true else if s == "0" then some false else none
+
+
+inductive XOp where
+  | base (op : Multi.MOp V)
+  | readWire (j k : Nat)
+  | sorting (j : Nat) (asc : Bool)
+  | sortingAny (j : Nat) (asc : Bool) (k : Nat) (casc : Bool)
+
+def parseXOp (t : String) (s : String) : Option XOp :=
+  match s.splitOn ":" with
+  | ["b", j, v] => match parseNat j, parseV t v with
+    | some j, some v => some (.base (.add j v))
+    | _, _ => none
+  | ["e", j, i, v] => match parseNat j, parseInt i, parseV t v with
+    | some j, some i, some v => some (.base (.set j i v))
+    | _, _, _ => none
+  | ["D", j, k] => match parseNat j, parseNat k with
+    | some j, some k => some (.readWire j k)
+    | _, _ => none
+  | ["Z", j, asc] => match parseNat j, parseBool asc with
+    | some j, some asc => some (.sorting j asc)
+    | _, _ => none
+  | ["Y", j, asc, k, casc] => match parseNat j, parseBool asc, parseNat k, parseBool casc with
+    | some j, some asc, some k, some casc => some (.sortingAny j asc k casc)
+    | _, _, _, _ => none
+  | _ => (parseX t s).map .base
+
+/-- representative of a value's order class: -0 is printed as +0 -/
+def canonV (t : String) (v : V) : V :=
+  match t, v with
+  | "f", .b 2147483648 => .b 0
+  | "d", .b 9223372036854775808 => .b 0
+  | _, v => v
+
+def runXO (t : String) : List XOp → Multi.MState V → List String → List String
+  | [], _, acc => acc.reverse
+  | op :: ops, st, acc =>
+    let z := zeroOf t
+    match op with
+    | .base op =>
+      let r := Multi.step Growth.go z op st
+      runXO t ops r.2 ((showOut r.1 ++ "#" ++ snapshot r.2) :: acc)
+    | .readWire j k =>
+      -- the model's own Write and Read: decode list k's bytes into receiver j, whatever it holds
+      match P.run (read Growth.go (vCodec t) z (st.lists j)) (write (vCodec t) (st.lists k)) with
+      | some (l', _) =>
+        let st' : Multi.MState V := { st with lists := Multi.upd st.lists j l' }
+        runXO t ops st' (("u#" ++ snapshot st') :: acc)
+      | none => runXO t ops st (("p#" ++ snapshot st) :: acc)
+    | .sorting j asc =>
+      let l := st.lists j
+      let cell := fun i => l.table.getD i z
+      let perm := Sort.sorting theSort (leOf t) asc cell l.size
+      runXO t ops st (("z" ++ listOf (fun i => showV (canonV t (cell i))) perm ++ "#" ++ snapshot st) :: acc)
+    | .sortingAny j asc k casc =>
+      let l := st.lists j
+      let c := st.lists k
+      let cell := fun i => l.table.getD i z
+      let ccell := fun i => c.table.getD i z
+      let perm := Sort.sortingAnyList theSort (leOf t) asc cell (leOf t) ccell casc l.size
+      runXO t ops st (("y" ++ listOf (fun i => showV (canonV t (cell i)) ++ "/" ++ showV (canonV t (ccell i))) perm
+        ++ "#" ++ snapshot st) :: acc)
+
+/-! ### sorting -/
 
 def lessOf (pt : String) (asc : Bool) (ct : String) (casc : Bool) (vals cvals : Array V) : Nat → Nat → Bool :=
   let v := fun i => vals.getD i default
@@ -366,8 +434,8 @@ def answer (line : String) : String :=
          else Sort.sortingAnyList msort (leOf pt) asc v (leOf ct) c casc vs.length)
     | _, _, _, _ => "bad-op"
   | ["X", t, ops] =>
-    match isType t, (if ops == "-" then some [] else (ops.splitOn ";").mapM (parseX t)) with
-    | true, some ops => semi (runX t ops Multi.MState.init [])
+    match isType t, (if ops == "-" then some [] else (ops.splitOn ";").mapM (parseXOp t)) with
+    | true, some ops => semi (runXO t ops Multi.MState.init [])
     | _, _ => "bad-op"
   | ["C", t, init, ops] => if t == "i" || t == "l" || t == "s" then doC t init ops else "bad-op"
   | ["TP", cols] => match parseTable cols with
